@@ -1,5 +1,6 @@
 """C07 - CUR and PCov-CUR select by leverage score on the orthogonalised residual."""
 from __future__ import annotations
+from fractions import Fraction as Fr
 
 import os
 import sys
@@ -38,15 +39,17 @@ class C07(runner.Check):
                    "the score vector built from the returned vectors (top-k, right axis), every pick an arg-max of the last refreshed scores among unselected items.")
     stubs = ["scipy svds / eigsh / eigh -> uninterpreted outputs with contract (trusted: that they return the top singular / eigen vectors); every call is logged with its argument",
              "np.linalg.pinv / lstsq -> closed forms", "sklearn validators"]
-    assumptions = ["exact real arithmetic", "tolerance hyper-parameter 0 in symbolic runs; a selected item of norm exactly 0 ends the path", "decomposed matrices non-zero, pick scores positive"]
+    assumptions = ["exact real arithmetic", "tolerance hyper-parameter 0 in symbolic runs (a selected item of norm exactly 0 ends the path), or 1/4 with the hypothesis that every projected-out item has residual norm >= 1/4", "decomposed matrices non-zero, pick scores positive"]
     outside = ["what svds/eigsh/eigh compute (trusted by contract, validated on the real routines in each replay)", "sample CUR on X == feature CUR on X^T and PCov-CUR(mixing=1) == CUR as equality "
                "of *selections* (different routines are different uninterpreted functions; only the arguments are compared)", "PCov-CUR feature direction (eigen-decomposition of a free X^T X)", "k = 3, > 3 selections"]
 
     def configs(self, tier):
         cf = []
 
-        def add(cls, d, n, m, nsel, every=1, k=1, p=0, cost=3):
+        def add(cls, d, n, m, nsel, every=1, k=1, p=0, cost=3, tol=None):
             cf.append({"cls": cls, "dir": d, "n": n, "m": m, "p": p, "params": {"n_to_select": nsel, "recompute_every": every, "k": k}, "_cost": cost})
+            if tol:
+                cf[-1]["tol"] = tol
 
         add("CUR", "feature", 3, 3, 2)
         add("CUR", "sample", 3, 3, 2)
@@ -56,6 +59,9 @@ class C07(runner.Check):
         add("CUR", "feature", 3, 3, 2, k=2, cost=4)
         add("PCovCUR", "sample", 3, 2, 2, p=1, cost=6)
         add("PCovCUR", "sample", 3, 2, 2, p=1, k=2, cost=6)
+        # positive tolerance 1/4: an item whose residual norm is >= the tolerance must be projected out exactly
+        add("CUR", "feature", 3, 3, 2, tol="1/4", cost=5)
+        add("CUR", "sample", 3, 3, 2, tol="1/4", cost=5)
         if tier == "thorough":
             add("CUR", "feature", 3, 3, 3, every=2, cost=60)
             add("CUR", "sample", 3, 3, 3, every=3, cost=30)
@@ -73,14 +79,16 @@ class C07(runner.Check):
     def harness(self, c, cfg, P):
         cur_stubs.reset()
         X, y = sc.sym_inputs(cfg)
-        over = {"tolerance": 0}
+        tol = Fr(cfg["tol"]) if cfg.get("tol") else 0
+        over = {"tolerance": tol}
         mixing = None
         if cfg["cls"] == "PCovCUR":
             mixing = c.sym("mix", nonneg=True)
             c.assume(mixing < 1)
             over["mixing"] = mixing
         sel = sc.record_scores(sc.make_selector(cfg, **over))
-        P.hyp = lambda: f_and(*(list(cur_stubs.NONZERO) + [F_(s > 0) for (_, s, _) in sel._symx_pick_scores]))
+        above_tol = []  # filled after the fit: every orthogonalised item had a residual norm >= the tolerance
+        P.hyp = lambda: f_and(*(list(cur_stubs.NONZERO) + [F_(s > 0) for (_, s, _) in sel._symx_pick_scores] + above_tol))
         # snapshot the score vector at every pick (harness-side instrumentation)
         pis = []
         orig = sel._get_best_new_selection
@@ -112,6 +120,10 @@ class C07(runner.Check):
                     Xs, ys = X[idx[:t]], y[idx[:t]]
                     w = linalg.pinv(Xs) @ ys  # least squares fitted on the selected samples only
                     yres[t] = y - X @ w
+        if tol and every != 0:
+            for t in range(1, len(idx) + 1):
+                item = res[t - 1][:, idx[t - 1]] if d == "feature" else res[t - 1][idx[t - 1], :]
+                above_tol.append(F_(arrays.norm(item.reshape(-1, 1)) >= tol))  # the same norm atom the code compares with the tolerance
         expected_t = [0] + refresh_after
         for ci, call in enumerate(calls[: len(expected_t)]):
             t = expected_t[ci]
@@ -177,6 +189,8 @@ class C07(runner.Check):
     def concrete(self, cfg, values):
         X, y = sc.float_inputs(cfg, values)
         over = {}
+        if cfg.get("tol"):
+            over["tolerance"] = float(Fr(cfg["tol"]))
         if cfg["cls"] == "PCovCUR":
             over["mixing"] = float(values.get("mix", 0.5))
         d, every, k = cfg["dir"], cfg["params"]["recompute_every"], cfg["params"]["k"]
@@ -210,6 +224,11 @@ class C07(runner.Check):
             Xs, ys = X[idx[:t]], y[idx[:t]]
             return y - X @ (np.linalg.pinv(Xs) @ ys)
 
+        if cfg.get("tol") and every != 0:
+            # the clauses are stated for items whose residual norm is at least the tolerance when they are projected out
+            for t in range(1, len(idx) + 1):
+                if np.linalg.norm(resid(t - 1)[:, idx[t - 1]]) < float(Fr(cfg["tol"])) * (1 + 1e-9):
+                    return {"selected": idx}, []
         if every != 0:
             R = resid(len(idx))
             got = sel.X_current_ if d == "feature" else sel.X_current_.T
